@@ -70,17 +70,42 @@ def _rand(*n, **k):
     return shim.sym(name, (int(n),))
 
 
+def _uniform(lo, hi, n):
+    """np.random.uniform(lo, hi, n) = lo + (hi - lo) * (fresh draws in [0, 1)); draws named like torch.rand's"""
+    st = CUR[0]
+    name = 'uvw'[st.nrand]; st.nrand += 1
+    return lo + (hi - lo) * shim.sym(name, (int(n),))
+
+
 class _MGrid:
     def __getitem__(s, idx):
         return tuple(shim.wrap(x) for x in _np.mgrid[idx])
 
 
+def _is_nan_marker(x):
+    a = _np.asarray(x, dtype=object).reshape(-1)
+    return len(a) > 0 and all(isinstance(e, shim.E) and e.op == 'var' and e.a[0] == 'NaN' for e in a)
+
+
 def namespace():
     ns = shim.base_namespace()
     ns['torch'].__dict__['rand'] = _rand
+    real_where = ns['torch'].__dict__['where']
+
+    def where_(c, a=None, b=None):
+        # x = torch.where(mask, full_like(x, nan), x) is the out-of-place spelling of x[mask] = nan:
+        # record the mask as a guard, leave the values (the property is stated where the mask is false)
+        st = CUR[0]
+        if st is not None and a is not None and b is not None and _is_nan_marker(a):
+            st.guards.append(_np.asarray(c, dtype=object).copy())
+            return b
+        return real_where(c, a, b)
+    ns['torch'].__dict__['where'] = where_
     np_ = ns['np'].__dict__
     np_['mgrid'] = _MGrid()
     np_['nan'] = float('nan')
+    rnd = shim._NS('numpy.random'); rnd.__dict__['uniform'] = _uniform
+    np_['random'] = rnd
     np_['empty'] = lambda s, **k: shim._full(s, shim.const(0))
     np_['vstack'] = lambda xs: shim.wrap(_np.concatenate([_np.atleast_2d(_np.asarray(x, dtype=object)) for x in xs], axis=0))
     return ns
@@ -117,6 +142,8 @@ UV2, UV8 = shim.names('u', (2,)) + shim.names('v', (2,)), shim.names('u', (8,)) 
 SZ2, SZ3 = shim.names('sz', (2,)), shim.names('sz', (3,))
 ANG = shim.names('an', (3,))
 GRID_NO, BOX_NO, CIRC_NO, SPH_NO, GL_NO, GL_RAYS = [2, 3], [2, 2, 2], [2, 2], [2, 3], [2, 2], 2
+CU_NO, CUR_NO = [2, 8], [2, 2]          # circular_uniform_sample: ring 1 with 4 points (exact float constants); random: 2 radii x 2 angles
+UV22 = shim.names('u', (2,)) + shim.names('v', (2,))
 
 
 def _guard(st, k=0):
@@ -189,12 +216,14 @@ def trace():
     # ------------------------------------------------------------ NumPy sample generators
     shim.load('odak/tools/transformation.py', ['rotmatx', 'rotmaty', 'rotmatz', 'rotate_points'], ns2)
     shim.load('odak/tools/sample.py', ['sphere_sample', 'sphere_sample_uniform', 'box_volume_sample', 'circular_sample',
-                                      'grid_sample', 'batch_of_rays'], ns2)
+                                      'circular_uniform_sample', 'circular_uniform_random_sample', 'grid_sample', 'batch_of_rays'], ns2)
     cen = lambda: list(shim.sym('c', (3,)))
     ang = lambda: list(shim.sym('an', (3,)))
     gens = [('n_grid', 6, SZ2 + CEN + ANG, lambda: ns2['grid_sample'](GRID_NO, [shim.var('sz_0'), shim.var('sz_1')], cen(), ang())),
             ('n_box', 8, SZ3 + CEN + ANG, lambda: ns2['box_volume_sample'](BOX_NO, [shim.var('sz_0'), shim.var('sz_1'), shim.var('sz_2')], cen(), ang())),
-            ('n_circ', 4, ['rad'] + CEN + ANG, lambda: ns2['circular_sample'](CIRC_NO, shim.var('rad'), cen(), ang()))]
+            ('n_circ', 4, ['rad'] + CEN + ANG, lambda: ns2['circular_sample'](CIRC_NO, shim.var('rad'), cen(), ang())),
+            ('n_cu', 4, ['rad'] + CEN + ANG, lambda: ns2['circular_uniform_sample'](CU_NO, shim.var('rad'), cen(), ang())),
+            ('n_cur', 4, ['rad'] + CEN + ANG + UV22, lambda: ns2['circular_uniform_random_sample'](CUR_NO, shim.var('rad'), cen(), ang()))]
     for name, npts, args, fn in gens:
         ps = paths(fn)
         info[name + '_paths'] = [d for d, _, _ in ps]
@@ -228,6 +257,21 @@ def trace():
         g.add('n_bat_guard_%d' % i, A2 + B2_, _guard(st, i)[0])
         for k in range(3):
             g.add('n_bat_o_%d_%d' % (i, k), A2 + B2_, rays[i, 0, k]); g.add('n_bat_d_%d_%d' % (i, k), A2 + B2_, rays[i, 1, k])
+    # the documented broadcast paths of batch_of_rays: one entry point with n exits, n entries with one exit
+    with local() as st:
+        rays = ns2['batch_of_rays'](shim.sym('a', (3,)), shim.sym('b', (2, 3)))
+    assert rays.shape == (2, 2, 3) and len(st.guards) == 2
+    for i in range(2):
+        g.add('n_bat1n_guard_%d' % i, A1 + B2_, _guard(st, i)[0])
+        for k in range(3):
+            g.add('n_bat1n_o_%d_%d' % (i, k), A1 + B2_, rays[i, 0, k]); g.add('n_bat1n_d_%d_%d' % (i, k), A1 + B2_, rays[i, 1, k])
+    with local() as st:
+        rays = ns2['batch_of_rays'](shim.sym('a', (2, 3)), shim.sym('b', (3,)))
+    assert rays.shape == (2, 2, 3) and len(st.guards) == 2
+    for i in range(2):
+        g.add('n_batn1_guard_%d' % i, A2 + B1, _guard(st, i)[0])
+        for k in range(3):
+            g.add('n_batn1_o_%d_%d' % (i, k), A2 + B1, rays[i, 0, k]); g.add('n_batn1_d_%d_%d' % (i, k), A2 + B1, rays[i, 1, k])
     g.info = info
     return g
 
